@@ -63,6 +63,6 @@ theorem next_persisted_write_repairs {R : Type} (s : Sys R) (w : Write R) (hp : 
 (a removed or reordered `persist` turns an entry to `false` and this theorem stops checking) -/
 theorem every_site_persists : ∀ site ∈ Acts.Gen.persistSites, site.2 = true := by decide
 
-theorem sites_known : Acts.Gen.persistSites.length = 9 := by decide
+theorem sites_known : Acts.Gen.persistSites.length = 10 := by decide
 
 end Acts.C11
